@@ -750,7 +750,7 @@ func (h *history) regBundle() []mmsg {
 		out = nil
 	}
 	for i := 0; i < k; i++ {
-		switch r.intn(4) {
+		switch r.intn(7) {
 		case 0:
 			out = append(out, c.mRegRegister(wrk, g.owner, h.randText(64), h.randText(128), h.randText(66), "t"))
 		case 1:
@@ -760,6 +760,54 @@ func (h *history) regBundle() []mmsg {
 				key = uint64(c.now.Unix())
 			}
 			out = append(out, c.mRegRecord(wrk, g.owner, g.id, key, []string{h.randText(66), "", "", "", ""}))
+		case 2:
+			// message LAYOUTS: a MsgExec wrapping one to three harmless transfers of the owner stands among the registry
+			// messages (the fee and ownership checks must see the messages around it as they are)
+			var inner []mmsg
+			for j := 0; j <= r.intn(3); j++ {
+				inner = append(inner, c.mSend(g.owner, h.anyAcct(), nundCoins(1+int64(r.intn(20)))))
+			}
+			out = append(out, c.mExec(g.owner, inner))
+		case 3:
+			// two records in one transaction, the second BELOW the first (both above the cursor), or a stale height
+			// wrapped in MsgExec: the transaction must fail as a whole
+			if wrk {
+				last += uint64(4 + r.intn(3))
+				out = append(out, c.mRegRecord(true, g.owner, g.id, last, []string{h.randText(20), "", "", "", ""}))
+				low := c.mRegRecord(true, g.owner, g.id, last-uint64(1+r.intn(2)), []string{h.randText(20), "", "", "", ""})
+				if r.chance(1, 2) {
+					low = c.mExec(g.owner, []mmsg{low})
+				}
+				out = append(out, low)
+			} else {
+				out = append(out, c.mRegPurchase(wrk, g.owner, g.id, uint64(1+r.intn(3))))
+			}
+		case 4:
+			// the same moniker twice by one owner in one transaction: two registrations, two ids
+			mon := "dup" + h.randText(6)
+			out = append(out, c.mRegRegister(wrk, g.owner, mon, "a"+h.randText(8), "gh", "t"), c.mRegRegister(wrk, g.owner, mon, "b"+h.randText(8), "gh", "t2"))
+		case 5:
+			// a record or purchase on SOMEBODY ELSE'S registration naming this owner, nested in MsgExec beside the owner's
+			// own messages: must fail
+			var other *regInfo
+			for i2 := range regs {
+				if regs[i2].owner != g.owner && regs[i2].owner >= 0 {
+					other = &regs[i2]
+				}
+			}
+			if other != nil {
+				forged := c.mRegPurchase(wrk, g.owner, other.id, 1)
+				if r.chance(1, 2) {
+					key := other.last + 1
+					if !wrk {
+						key = uint64(c.now.Unix())
+					}
+					forged = c.mRegRecord(wrk, g.owner, other.id, key, []string{"forged", "", "", "", ""})
+				}
+				out = append(out, c.mExec(g.owner, []mmsg{forged}))
+			} else {
+				out = append(out, c.mRegPurchase(wrk, g.owner, g.id, uint64(1+r.intn(3))))
+			}
 		default:
 			out = append(out, c.mRegPurchase(wrk, g.owner, g.id, uint64(1+r.intn(3))))
 		}
